@@ -1,12 +1,12 @@
 (* Extraction of the editor model (group ed). ExtrOcamlBasic only. *)
 From Coq Require Import Extraction ExtrOcamlBasic.
-From LC Require Import Base.Lib Model.Syllable Model.Composition Model.Conversion Model.Editor Model.EdInst.
+From LC Require Import Base.Lib Model.Syllable Model.Composition Model.Conversion Model.Engine Model.Editor Model.EdInst.
 Extraction Language OCaml.
 Set Extraction KeepSingleton.
 Separate Extraction
   EdInst.m_init EdInst.m_key EdInst.m_select EdInst.m_cancel EdInst.m_start_selecting EdInst.m_commit
   EdInst.m_clear EdInst.m_ack EdInst.m_set_options EdInst.m_set_engine EdInst.m_clear_syl
   EdInst.m_jump_next EdInst.m_jump_prev EdInst.m_jump_first EdInst.m_jump_last EdInst.m_learn EdInst.m_unlearn
-  EdInst.m_candidates EdInst.m_total_page EdInst.m_valid_conv EdInst.bt_insert
+  EdInst.m_candidates EdInst.m_total_page EdInst.m_valid_conv EdInst.m_engine_alts EdInst.bt_insert
   Editor.display Editor.conversion Editor.ed_page_no Conversion.tiling_ok Conversion.display_of
   Composition.ce_len Syllable.spell.
